@@ -1,10 +1,11 @@
 SPECIFICATION Spec
 CONSTANTS
-  CapMax = 20
+  CapMax = 32
   Profiles <- ProfAll
   MaxSteps = 1
   PairChecked = TRUE
   IslandClears = TRUE
+  DualChecked = TRUE
 INVARIANT TypeOK
 INVARIANT Apart
 INVARIANT NoDerefNull
